@@ -11,24 +11,26 @@
 (*                        line (incl. leading blanks and renames)          *)
 (***************************************************************************)
 EXTENDS BVStatus, TLC
+CONSTANT S22      \* model the repaired defect S22 (a quoted path is compared as it stands): TRUE must violate NoSweep (self-test of the invariants)
 Files == <<"pat1", "pat2", "oth1", "oth2">>
-Name(f) == CASE f = "pat1" -> <<112,97,116,49,46,116,120,116>> [] f = "pat2" -> <<115,114,99,47,112,50,46,112,121>>
-             [] f = "oth1" -> <<111,49,46,116,120,116>> [] f = "oth2" -> <<77,32,120,46,116,120,116>>     \* "M x.txt": a name that looks like a status line
+\* pat2 is "rel notes \303\251.md" (a blank and a non-ASCII letter, UTF-8 bytes): git prints it quoted; oth2 is "M x.txt": a name that looks like a status line (quoted too)
+Name(f) == CASE f = "pat1" -> <<112,97,116,49,46,116,120,116>> [] f = "pat2" -> <<114,101,108,32,110,111,116,101,115,32,195,169,46,109,100>>
+             [] f = "oth1" -> <<111,49,46,116,120,116>> [] f = "oth2" -> <<77,32,120,46,116,120,116>>
 OldName(f) == <<111,108,100,95>> \o Name(f)
 PatternPaths == {Name("pat1"), Name("pat2")}
 States == {"clean", " M", "M ", "MM", "A ", "AM", " D", "D ", "R ", "RM", "??"}
 XY(s) == CASE s = " M" -> <<32,77>> [] s = "M " -> <<77,32>> [] s = "MM" -> <<77,77>> [] s = "A " -> <<65,32>> [] s = " D" -> <<32,68>>
            [] s = "D " -> <<68,32>> [] s = "R " -> <<82,32>> [] s = "RM" -> <<82,77>> [] s = "AM" -> <<65,77>> [] s = "??" -> <<63,63>>
-Line(f, s) == XY(s) \o <<32>> \o (IF s \in {"R ", "RM"} THEN OldName(f) \o <<32,45,62,32>> \o Name(f) ELSE Name(f))
+Line(f, s) == XY(s) \o <<32>> \o (IF s \in {"R ", "RM"} THEN GitSpelling(OldName(f)) \o <<32,45,62,32>> \o GitSpelling(Name(f)) ELSE GitSpelling(Name(f)))
 VARIABLES st, allow
 Init == st \in [{"pat1", "pat2", "oth1", "oth2"} -> States] /\ allow \in BOOLEAN
 Next == FALSE /\ UNCHANGED <<st, allow>>
 Dirty == {f \in DOMAIN st : st[f] # "clean"}
 Lines == LET fs == SelectSeq(Files, LAMBDA f : st[f] # "clean") IN [q \in 1..Len(fs) |-> Line(fs[q], st[fs[q]])]
-B == Blocks(Lines, "git", PatternPaths, allow)
+B == BlocksD(Lines, "git", PatternPaths, allow, S22)
 NoSweep == ~B => (st["pat1"] = "clean" /\ st["pat2"] = "clean")
 DirtyBlocksUnlessAllowed == (~allow /\ \E f \in Dirty : ~(st[f] = "??" /\ f \in {"oth1", "oth2"})) => B
 UntrackedOthersInert == (\A f \in Dirty : st[f] = "??" /\ f \in {"oth1", "oth2"}) => ~B
-ParseRecovers == \A q \in 1..Len(Lines) : LET e == ParseLine(Lines[q], "git") f == SelectSeq(Files, LAMBDA x : st[x] # "clean")[q] IN
+ParseRecovers == \A q \in 1..Len(Lines) : LET e == ParseLineD(Lines[q], "git", S22) f == SelectSeq(Files, LAMBDA x : st[x] # "clean")[q] IN
                     e.xy = XY(st[f]) /\ e.paths[Len(e.paths)] = Name(f) /\ (st[f] \in {"R ", "RM"} => e.paths[1] = OldName(f))
 =============================================================================
